@@ -13,6 +13,10 @@
 //	matchPath=true (case ids "matchpath:..."): matches are root, each intermediate node, target,
 //	  once each and in that order.
 //
+// Names differing only by white space at their ends, and paths perturbed by white space
+// (ws_test.go): 4 fixed trees "ws-pp|ph|hp|hh" plus 8 | 100 random trees "ws-rand#<i>", same case id
+// scheme ("tree=ws-..,path=%q,sel=..", "tree=ws-..,missing=%q"), matchPath=false only.
+//
 // Oracle: the in-memory model tree the DAG was built from.
 package c03
 
@@ -293,4 +297,6 @@ func TestBounded(t *testing.T) {
 		}
 		r.Sample(map[string]any{"tree": tree, "root": root.link.String(), "paths": len(ts), "blocks": st.Len()})
 	}
+
+	wsTrees(t, r)
 }
